@@ -696,6 +696,31 @@ mod c05 {
         // extra index forms: element assignment `xs[i] = 5` (list_get_mut) and dict read `d[k]` (dict_get)
         if let Some(kind) = v["index_kind"].as_str() {
             let idx = bound_src(v["start"].as_str().unwrap_or("var"), "st").unwrap_or("st".to_string());
+            if kind == "fstring" {
+                // index / slice reads inside f-strings: the sub-expressions of different f-strings have the SAME spans (each is
+                // lexed from offset 0), so a type looked up by span may belong to another expression; every read must still go
+                // through the helper for ITS object's type
+                let slice = v["slice"].as_bool().unwrap_or(false);
+                let sub = if slice { "st:" } else { "st" };
+                let src = format!("def f(xs: List[int], nm: str, st: int) -> None:\n    println(f\"{{xs[{}]}}\")\n    println(f\"{{nm[{}]}}\")\n\ndef main() -> None:\n    pass\n", sub, sub);
+                let got = guarded(|| {
+                    let tokens = incan::frontend::lexer::lex(&src).map_err(|e| format!("lex: {:?}", e.first().map(|x| x.message.clone())))?;
+                    let prog = incan::frontend::parser::parse(&tokens).map_err(|e| format!("parse: {:?}", e.first().map(|x| x.message.clone())))?;
+                    incan::IrCodegen::new().try_generate(&prog).map_err(|e| format!("codegen: {}", e))
+                });
+                let echo = { let mut a = v.clone(); a["source"] = json!(src); a };
+                let (lh, sh) = if slice { ("incan_stdlib::collections::list_slice(&xs", "incan_stdlib::strings::str_slice(&nm") } else { ("incan_stdlib::collections::list_get(&xs", "incan_stdlib::strings::str_index(&nm") };
+                return match &got {
+                    Ok(Ok(code)) => {
+                        let flat: String = code.split_whitespace().collect::<Vec<_>>().join("").replace("&mut", "&");
+                        let ok = flat.contains(lh) && flat.contains(sh);
+                        verdict(ok, json!({"list_helper_on_list": flat.contains(lh), "str_helper_on_str": flat.contains(sh)}), json!([lh, sh]), &echo,
+                                "index / slice reads inside f-strings use the helper for their own object's type")
+                    }
+                    Ok(Err(m)) => verdict(false, json!({"front_end_error": m}), json!([lh, sh]), &echo, "an index form must compile"),
+                    Err(m) => verdict(false, json!({"panicked": m}), json!([lh, sh]), &echo, "front end must not panic"),
+                };
+            }
             if kind == "object" {
                 // the indexed / sliced object is a field or a call result (its type is known to the checker only): the read must
                 // still go through the helper for the object's type, with the object first and the written index / bound after it
@@ -1156,7 +1181,9 @@ fn search(oracle: &str, seed: u64, budget: u64, skip: &[String]) -> Value {
                 // plus 4 element-assignment forms, 1 dict read, 1 nested index and 1 dict compound assignment = 271
                 let kinds = ["none", "var", "zero", "neg"];
                 let steps = ["none", "var", "neg", "two"];
-                let k0 = n % 279;
+                let k0 = n % 281;
+                // ... plus 2 programs with an index / a slice read in two f-strings (colliding sub-expression spans) = 281
+                if k0 >= 279 { break 'g json!({"index_kind": "fstring", "slice": k0 == 280}); }
                 // ... plus 8 reads whose object is a field or a call result (4 objects x index / slice) = 279
                 if k0 >= 271 { break 'g json!({"index_kind": "object", "obj": (k0 - 271) % 4, "slice": (k0 - 271) / 4 == 1}); }
                 if k0 == 269 { break 'g json!({"index_kind": "nested"}); }
